@@ -140,6 +140,12 @@ def parsePol (s : String) : Option (PanicVal → Bool) :=
 def optNat (s : String) : Option (Option Nat) :=
   if s == "-" then some none else s.toNat?.map some
 
+/-- when the initiator's context becomes done: `-` never; `k`: when the `k`-th peer element has
+been delivered; `w<n>`: while the `n`-th SASL element (from 0: `<auth/>`) is being written — the
+loop test that follows that write is number `n` -/
+def cliCancel (s : String) : Option (Option Nat) :=
+  if s.startsWith "w" then (s.drop 1).toString.toNat?.map some else optNat s
+
 /-- at which iterations the implementation was seen to test the context: `0`/`1` for iterations
 0, 1, …; the last character stands for all later iterations -/
 def parseMask (s : String) : Option (Nat → Bool) :=
@@ -163,7 +169,7 @@ def parseWhen (s : String) : Option (Option Nat) :=
 def handleCli (budget cancel cm adv steps peer : String) (pols : String := "000") : Option String := do
   let pol ← parsePol pols
   let b ← optNat budget
-  let k ← optNat cancel
+  let k ← cliCancel cancel
   let script ← mapM? parseStep (splitList steps)
   let evs ← mapM? parseCEv (splitList peer)
   let names ← decNames cm
